@@ -16,7 +16,8 @@ CONSTANTS
   ImportToks <- MCImportsA
   CmtToks <- MCCmt
   NeverPruned <- MCNever
-  Cfgs <- MCCfgsAll
+  RootToks <- MCRootQ
+  Cfgs <- MCCfgsC18
   ImpPairs <- MCImpQ
   InitSchemas <- MCInit2P
   MaxHist = 4
